@@ -270,6 +270,7 @@ def main_check(args):
     lines = []
     outroot = os.environ.get("PVM_OUT") or VERIF  # scratch runs against mutated copies write elsewhere
     rdir = os.path.join(outroot, "replays", prop)
+    shutil.rmtree(rdir, ignore_errors=True)  # replay files always belong to the latest run
     written = {}
     for v in new_viol:
         if v["key"] in written:
